@@ -632,6 +632,77 @@ fn stress_round(seed: u64, tasks: usize, steps: usize, with_full_gc: bool) -> Op
     None
 }
 
+
+/// Barrier stress for the unlocked reference counters: `threads` OS threads put the SAME fresh
+/// content at the same moment (released by a barrier), `reps` times.  Then, for every content, all
+/// artifacts but one are deleted, every chunk is aged and gc runs: the surviving artifact must
+/// still read back (a lost increment shows up as a collected live chunk).
+fn barrier_round(seed: u64, threads: usize, reps: usize) -> Option<String> {
+    use std::sync::Barrier;
+    let cs = 4usize;
+    let store = TensorStore::new();
+    let config = BlobConfig::new().with_chunk_size(cs).with_gc_min_age(Duration::from_secs(MIN_AGE)).with_gc_batch_size(1_000_000);
+    let rt0 = tokio::runtime::Builder::new_current_thread().enable_all().build().unwrap();
+    let blob = Arc::new(rt0.block_on(BlobStore::new(store.clone(), config)).unwrap());
+    let barrier = Arc::new(Barrier::new(threads));
+    let mut handles = vec![];
+    for t in 0..threads {
+        let blob = blob.clone();
+        let barrier = barrier.clone();
+        handles.push(std::thread::spawn(move || {
+            let rt = tokio::runtime::Builder::new_current_thread().enable_all().build().unwrap();
+            let mut ids = vec![];
+            for r in 0..reps {
+                // two chunks, the same for every thread in this repetition, fresh per repetition
+                let x = (seed as u8).wrapping_add(r as u8);
+                let d: Vec<u8> = vec![x, (r >> 8) as u8, 1, 2, x, (r >> 8) as u8, 3, 4];
+                barrier.wait();
+                let id = if t % 2 == 0 {
+                    rt.block_on(blob.put("f", &d, PutOptions::default())).ok()
+                } else {
+                    rt.block_on(async {
+                        let mut w = blob.writer("f", PutOptions::default()).await.ok()?;
+                        w.write(&d).await.ok()?;
+                        w.finish().await.ok()
+                    })
+                };
+                ids.push((id, d));
+            }
+            ids
+        }));
+    }
+    let per_thread: Vec<Vec<(Option<String>, Vec<u8>)>> = handles.into_iter().map(|h| h.join().unwrap()).collect();
+    // keep thread 0's artifact of every repetition, delete the others
+    for other in per_thread.iter().skip(1) {
+        for (id, _) in other {
+            if let Some(id) = id {
+                let _ = rt0.block_on(blob.delete(id));
+            }
+        }
+    }
+    for key in store.scan("_blob:chunk:") {
+        if let Ok(mut t) = store.get(&key) {
+            t.set("_created", TensorValue::Scalar(ScalarValue::Int(0)));
+            store.put(&key, t).unwrap();
+        }
+    }
+    let _ = rt0.block_on(blob.gc());
+    for (id, d) in &per_thread[0] {
+        let Some(id) = id else { return Some("put failed".into()) };
+        match rt0.block_on(blob.get(id)) {
+            Ok(x) if &x == d => {}
+            Ok(x) => return Some(format!("surviving artifact reads back {:?} instead of {:?}", x, d)),
+            Err(e) => {
+                return Some(format!(
+                    "{threads} threads stored {:?} at the same moment; the other artifacts were deleted, chunks aged, gc run; the surviving artifact is unreadable: {e}",
+                    d
+                ))
+            }
+        }
+    }
+    None
+}
+
 fn main() {
     let args = Args::parse();
     quiet_panics();
@@ -789,6 +860,19 @@ fn main() {
                 &what,
                 json!({"stress_seed": seed, "tasks": tasks, "steps": 60, "with_full_gc": with_full_gc}),
             );
+        }
+    }
+
+    let brounds = args.budget(12, 200);
+    for i in 0..brounds {
+        let threads = 2 + (i % 3);
+        let seed = rng.next();
+        let res = barrier_round(seed, threads, 40);
+        dist.hit("stress.barrier");
+        stress.push(&format!("{seed}"), &format!("barrier stress seed={seed} threads={threads} reps=40 -> {:?}", res), true);
+        if let Some(what) = res {
+            dist.hit("stress.barrier_hit");
+            hits.push("concurrent-refcount", &what, json!({"barrier_seed": seed, "threads": threads, "reps": 40}));
         }
     }
 
